@@ -29,6 +29,7 @@ import (
 
 	"github.com/lindb/lindb/constants"
 	"github.com/lindb/lindb/coordinator/storage"
+	"github.com/lindb/lindb/internal/verifhook"
 	"github.com/lindb/lindb/metrics"
 	"github.com/lindb/lindb/models"
 	"github.com/lindb/lindb/pkg/queue"
@@ -193,6 +194,7 @@ func (p *partition) IsExpire() bool {
 			continue
 		}
 		// no data consume, can stop this replicator
+		verifhook.Yield("c08-expire-tested")
 		p.stopReplicator(name)
 	}
 	// no data means all data can be deleted
